@@ -143,31 +143,25 @@ theorem C19_retry_exact (c : Cfg) (s m : Nat) (hR : .retry ∈ c.feats) (hnd : c
     · intro hk
       exact (e1.1 (by omega)).1
 
-/-- **Retry on hierarchical machines, full strength** — `RetryExactScoped c s m` (Model/Features.lean): the
-clause with the source names as `Retry.enter` actually reads them.  It is **false** of the code (known finding
-F-C19-retry-local-source): for a self-transition declared *inside the parent's state dict* the source is the
-relative name, never equal to the scoped `self.name`, so the counter restarts on every entry and the limit
-never bites.  It holds when every re-entry's source is read as the state's own (full) name, i.e. for
-transitions declared on the machine: -/
-theorem C19_retry_scoped_partial (c : Cfg) (s m : Nat) (hR : .retry ∈ c.feats) (hnd : c.feats.Nodup)
-    (hr : 0 < (c.args s).retries)
-    (hOk : c.hasOut s = true ∨ isAccepted c s = true ∨ .error ∉ c.feats)
-    (st : FS) (src0 : Nat) (h0 : src0 ≠ s) (seen : List Nat) (hseen : ∀ x ∈ seen, x = s) :
-    (enterOp c s m s (runOps c (.enter s m src0 :: seen.map (fun x => Op.enter s m x)) st)).2 = .entered ↔
-      seen.length + 1 ≤ (c.args s).retries := by
-  have h := map_self_noForeign s m seen hseen
-  have := (C19_retry_exact c s m hR hnd hr hOk st src0 h0 _ h.1).2.1
-  rw [h.2] at this
+/-- **Retry on hierarchical machines, full strength** — `RetryExactScoped` (Model/Features.lean): the clause
+with the sources as `Retry.enter` reads them, i.e. the declared (possibly scope-relative) name made global with
+the scope of the declaration, for every naming function `full`.  (Former finding F-C19-retry-local-source,
+fixed in /repo 962fbf3: the relative name used to be compared with the scoped `self.name` as it stood, so a
+self-transition declared inside the parent's state dict restarted the counter on every entry.) -/
+theorem C19_retry_scoped (c : Cfg) (full : Nat → Nat → Nat) (s m : Nat) (hR : .retry ∈ c.feats)
+    (hnd : c.feats.Nodup) (hr : 0 < (c.args s).retries)
+    (hOk : c.hasOut s = true ∨ isAccepted c s = true ∨ .error ∉ c.feats) :
+    RetryExactScoped c full s m := by
+  intro st d0 h0 seen last hseen hlast
+  have hmap : seen.map (fun d => Op.enter s m (full d.scope d.rel)) =
+      (seen.map (fun d => full d.scope d.rel)).map (fun x => Op.enter s m x) := by
+    simp [List.map_map, Function.comp_def]
+  have h := map_self_noForeign s m (seen.map (fun d => full d.scope d.rel))
+    (by intro x hx; obtain ⟨d, hd, rfl⟩ := List.mem_map.mp hx; exact hseen d hd)
+  have := (C19_retry_exact c s m hR hnd hr hOk st (full d0.scope d0.rel) h0 _ h.1).2.1
+  rw [h.2, List.length_map] at this
+  simp only [enterDeclared, hlast, hmap]
   exact this
-
-/-- witness: state 1 = `A_b` with `retries = 1`, the re-entries' source read as 9 (the relative name `b`):
-the third consecutive re-entry still runs the enter callbacks -/
-theorem C19_retry_scoped_counterexample :
-    ¬ RetryExactScoped { feats := [.retry], args := fun _ => { retries := 1 }, hasOut := fun _ => true } 1 0 := by
-  intro h
-  have h2 := (h FS.init 0 (by decide) [9, 9] 9).mp (by decide)
-  revert h2
-  decide
 
 /-- **Retry, no limit.** `retries = 0` (or not passed) never invokes `on_failure`. -/
 theorem C19_retry_unlimited (c : Cfg) (s m src : Nat) (st : FS) (h0 : (c.args s).retries = 0)
@@ -268,6 +262,14 @@ example : isTag { feats := [.error], hasOut := fun _ => false,
 example : (enterOp { feats := [.error], hasOut := fun _ => false,
                      args := builtArgs [{ name := 1, tagsRef := some 0, accepted := true }, { name := 2, tagsRef := some 0 }]
                                (fun _ => [1]) } 2 0 1 FS.init).2 = .raised := by decide
+-- regression of former finding F-C19-retry-local-source: state 12 = `A_b` (scope 1 = `A`, relative name 2 = `b`,
+-- `full` = the join), retries = 1, self-transition declared inside `A` as `['again', 'b', 'b']`:
+-- the second consecutive re-entry is refused
+example : let c : Cfg := { feats := [.retry], args := fun _ => { retries := 1 }, hasOut := fun _ => true }
+    let full : Nat → Nat → Nat := fun p r => p * 10 + r
+    ((enterDeclared c full 12 0 ⟨1, 2⟩ (runOps c [.enter 12 0 (full 0 3), .enter 12 0 (full 1 2)] FS.init)).2,
+     (enterDeclared c full 12 0 ⟨1, 2⟩ (runOps c [.enter 12 0 (full 0 3)] FS.init)).2)
+      = (.failed, .entered) := by decide
 -- FeatureFree is inhabited on a machine with every feature
 example : FeatureFree (cfg all) 0 := ⟨rfl, fun _ => .inl (by decide)⟩
 
